@@ -311,6 +311,57 @@ Proof.
   destruct Hzl as [H|[H|H]]; [left; exact H | subst; contradiction | right; exact H].
 Qed.
 
+(* permutations(l, k) lists no tuple twice when l has no duplicates *)
+Lemma selects_fst {T} (l : list T) : map fst (selects l) = l.
+Proof. induction l as [|x l IH]; [reflexivity|]. cbn [selects map fst]. f_equal. rewrite map_map. cbn [fst]. exact IH. Qed.
+
+Lemma NoDup_map_fst_inj {S T} (d : list (S * T)) a b : NoDup (map fst d) -> In a d -> In b d -> fst a = fst b -> a = b.
+Proof.
+  induction d as [|e d IH]; intros Hn Ha Hb E; [destruct Ha|]. cbn in Hn. inversion Hn as [|? ? He Hd]; subst.
+  destruct Ha as [<-|Ha], Hb as [<-|Hb].
+  - reflexivity.
+  - exfalso. apply He. rewrite E. apply in_map. exact Hb.
+  - exfalso. apply He. rewrite <- E. apply in_map. exact Ha.
+  - apply IH; assumption.
+Qed.
+
+Lemma NoDup_map_inj_in {S T} (f : S -> T) (l : list S) :
+  (forall a b, In a l -> In b l -> f a = f b -> a = b) -> NoDup l -> NoDup (map f l).
+Proof.
+  induction l as [|x l IH]; intros Hi Hn; [constructor|]. inversion Hn as [|? ? Hx Hl]; subst. cbn. constructor.
+  - intros H. apply in_map_iff in H. destruct H as (y & E & Hy). assert (y = x) by (apply Hi; [right; exact Hy | left; reflexivity | exact E]).
+    subst. contradiction.
+  - apply IH; [|exact Hl]. intros a b Ha Hb. apply Hi; right; assumption.
+Qed.
+
+Lemma permutations_NoDup {T} : forall k (l : list T), NoDup l -> NoDup (permutations k l).
+Proof.
+  induction k as [|k IH]; intros l Hn; cbn [permutations]; [constructor; [intros []|constructor]|].
+  assert (Hs : NoDup (map fst (selects l))) by (rewrite selects_fst; exact Hn).
+  apply NoDup_flat_map.
+  - apply (NoDup_map_inv _ _ Hs).
+  - intros (x & r) Hxr. cbn [fst snd]. apply NoDup_map_inj_in; [intros a b _ _ E; congruence|]. apply IH.
+    apply selects_spec in Hxr. destruct Hxr as (l1 & l2 & -> & ->). apply NoDup_remove_1 in Hn. exact Hn.
+  - intros (x & r) (x' & r') p Hx Hx' Hp Hp'. cbn [fst snd] in *. apply in_map_iff in Hp. destruct Hp as (q & <- & _).
+    apply in_map_iff in Hp'. destruct Hp' as (q' & E & _). injection E as E _. apply (NoDup_map_fst_inj _ _ _ Hs Hx Hx'). cbn. congruence.
+Qed.
+
+Lemma app_eq_len {T} : forall (a a' b b' : list T), length a = length a' -> a ++ b = a' ++ b' -> a = a' /\ b = b'.
+Proof.
+  induction a as [|x a IH]; intros [|x' a'] b b' Hl E; try discriminate; [split; [reflexivity | exact E]|].
+  cbn in Hl, E. injection Hl as Hl. injection E as -> E. destruct (IH a' b b' Hl E) as [-> ->]. split; reflexivity.
+Qed.
+
+(* mappings with prescribed key lists, position by position, are determined by their concatenation *)
+Lemma concat_split_eq : forall (ks : list (list Z)) (fs fs' : list mapping),
+  Forall2 (fun k fi => map fst fi = k) ks fs -> Forall2 (fun k fi => map fst fi = k) ks fs' -> concat fs = concat fs' -> fs = fs'.
+Proof.
+  induction ks as [|k ks IH]; intros fs fs' F F' E; inversion F; subst; inversion F'; subst; [reflexivity|]. cbn in E.
+  match goal with H1 : map fst ?a = map fst ?b |- _ => apply (f_equal (@length Z)) in H1; rewrite !map_length in H1;
+    destruct (app_eq_len _ _ _ _ (eq_sym H1) E) as [-> E'] end.
+  f_equal. apply IH; assumption.
+Qed.
+
 (* ---------- mapping.update on disjoint keys is concatenation ---------- *)
 Lemma dict_set_fresh (d : mapping) k v : ~ In k (keys d) -> dict_set d k v = d ++ [(k, v)].
 Proof.
@@ -456,6 +507,83 @@ Section Multi.
       apply in_map_iff. exists fs. split; [|apply lazy_product_In; exact Hfs].
       apply merge_concat. rewrite (emb_keys_concat scope comps fs F1). exact Hkeys.
   Qed.
+
+  (* ---- nothing is yielded twice ---- *)
+  Lemma build_mappers_NoDup scope : forall cs cands mappers,
+    build_mappers QA A QB B amatch bmatch clo o_atoms o_bonds scope cs cands = Some mappers -> forall L, In L mappers -> NoDup L.
+  Proof.
+    induction cs as [|c cr IH]; intros cands mappers E L HL; cbn [build_mappers] in E.
+    - injection E as <-. destruct HL.
+    - destruct cands as [|cand dr]; [injection E as <-; destruct HL|].
+      destruct (restrict scope cand) as [s'|]; [|discriminate].
+      destruct (build_mappers QA A QB B amatch bmatch clo o_atoms o_bonds scope cr dr) as [ms|] eqn:Eb; [|discriminate].
+      injection E as <-. destruct HL as [<-|HL]; [apply get_mapping_NoDup; exact wf_o | apply (IH dr ms Eb L HL)].
+  Qed.
+
+  (* what being yielded for the assignment [cands] of target components means *)
+  Lemma stream_elem scope cands mappers fs :
+    In cands (permutations (length comps) tcomps) ->
+    build_mappers QA A QB B amatch bmatch clo o_atoms o_bonds scope comps cands = Some mappers ->
+    In fs (lazy_product mappers) ->
+    merge fs = concat fs /\
+    Forall2 (fun c fi => emb (map fst4 c) (slist scope) fi) comps fs /\
+    Forall2 (fun cand fi => In cand tcomps /\ forall y, In y (image fi) -> In y cand) cands fs.
+  Proof.
+    intros Hperm Eb Hfs. destruct c_ok as (P & Hl & _).
+    assert (Hkeys : NoDup (concat (map (map (@fst4 QA QB)) comps))) by (apply (Permutation_NoDup (Permutation_sym P)); apply wf_q).
+    apply permutations_sound in Hperm. destruct Hperm as (Plen & Pincl & _). apply lazy_product_In in Hfs.
+    assert (Ha : assigned scope comps cands fs) by (apply (build_mappers_spec scope comps cands fs Plen); exists mappers; split; assumption).
+    apply (assigned_iff scope comps cands fs Hl Pincl) in Ha. destruct Ha as [F1 F2].
+    split; [|split; assumption]. apply merge_concat. rewrite (emb_keys_concat scope comps fs F1). exact Hkeys.
+  Qed.
+
+  Lemma emb_keys_Forall2 scope : forall cs fs, Forall2 (fun c fi => emb (map fst4 c) (slist scope) fi) cs fs ->
+    Forall2 (fun k fi => map fst fi = k) (map (map (@fst4 QA QB)) cs) fs.
+  Proof. induction 1 as [|c fi cs fs H _ IH]; cbn; constructor; [apply H | exact IH]. Qed.
+
+  Lemma cands_unique : forall fs cands1 cands2,
+    Forall2 (fun cand (fi : mapping) => In cand tcomps /\ forall y, In y (image fi) -> In y cand) cands1 fs ->
+    Forall2 (fun cand (fi : mapping) => In cand tcomps /\ forall y, In y (image fi) -> In y cand) cands2 fs ->
+    (forall fi, In fi fs -> fi <> []) -> cands1 = cands2.
+  Proof.
+    destruct tc_ok as (_ & _ & _ & Td).
+    induction fs as [|fi fs IH]; intros cands1 cands2 F1 F2 Hne; inversion F1; subst; inversion F2; subst; [reflexivity|].
+    f_equal; [|apply IH; try assumption; intros g Hg; apply Hne; right; exact Hg].
+    destruct fi as [|[kx ky] fi']; [exfalso; apply (Hne [] (or_introl eq_refl)); reflexivity|].
+    match goal with H1 : In ?a tcomps /\ _, H2 : In ?b tcomps /\ _ |- ?a = ?b =>
+      destruct H1 as [T1 I1]; destruct H2 as [T2 I2]; apply (Td a b ky T1 T2); [apply I1 | apply I2]; left; reflexivity end.
+  Qed.
+
+  Theorem multi_stream_NoDup : forall scope, NoDup (multi_stream scope).
+  Proof.
+    intros scope. unfold multi_stream. pose proof c_ok as (_ & Hl & _). pose proof tc_ok as (_ & _ & Tn & _).
+    assert (Hsame : forall cands mappers fs cands' mappers' fs',
+              In cands (permutations (length comps) tcomps) ->
+              build_mappers QA A QB B amatch bmatch clo o_atoms o_bonds scope comps cands = Some mappers -> In fs (lazy_product mappers) ->
+              In cands' (permutations (length comps) tcomps) ->
+              build_mappers QA A QB B amatch bmatch clo o_atoms o_bonds scope comps cands' = Some mappers' -> In fs' (lazy_product mappers') ->
+              merge fs = merge fs' -> fs = fs' /\ cands = cands').
+    { intros cands mappers fs cands' mappers' fs' Hp Eb Hfs Hp' Eb' Hfs' E.
+      destruct (stream_elem scope cands mappers fs Hp Eb Hfs) as (M & F1 & F2).
+      destruct (stream_elem scope cands' mappers' fs' Hp' Eb' Hfs') as (M' & F1' & F2').
+      rewrite M, M' in E.
+      assert (fs = fs') by (apply (concat_split_eq _ fs fs' (emb_keys_Forall2 scope comps fs F1) (emb_keys_Forall2 scope comps fs' F1') E)).
+      subst fs'. split; [reflexivity|]. apply (cands_unique fs cands cands' F2 F2').
+      clear -F1 Hl. induction F1 as [|c fi cs fs H _ IH]; intros g Hg; [destruct Hg|].
+      destruct Hg as [<-|Hg]; [|apply IH; [intros c' Hc'; apply Hl; right; exact Hc' | exact Hg]].
+      destruct (Hl c (or_introl eq_refl)) as [Hne _]. destruct H as (Hk & _). intros ->. destruct c; [congruence | discriminate]. }
+    apply NoDup_flat_map.
+    - apply permutations_NoDup. exact Tn.
+    - intros cands Hp. destruct (build_mappers QA A QB B amatch bmatch clo o_atoms o_bonds scope comps cands) as [mappers|] eqn:Eb; [|constructor].
+      apply NoDup_map_inj_in.
+      + intros fs fs' Hfs Hfs' E. apply (Hsame cands mappers fs cands mappers fs' Hp Eb Hfs Hp Eb Hfs' E).
+      + apply lazy_product_NoDup. apply (build_mappers_NoDup scope comps cands mappers Eb).
+    - intros cands cands' f Hp Hp' Hf Hf'.
+      destruct (build_mappers QA A QB B amatch bmatch clo o_atoms o_bonds scope comps cands) as [mappers|] eqn:Eb; [|destruct Hf].
+      destruct (build_mappers QA A QB B amatch bmatch clo o_atoms o_bonds scope comps cands') as [mappers'|] eqn:Eb'; [|destruct Hf'].
+      apply in_map_iff in Hf. destruct Hf as (fs & <- & Hfs). apply in_map_iff in Hf'. destruct Hf' as (fs' & E & Hfs').
+      apply (Hsame cands mappers fs cands' mappers' fs' Hp Eb Hfs Hp' Eb' Hfs' (eq_sym E)).
+  Qed.
 End Multi.
 
 (* ---------- the whole call: pattern.get_mapping(target, ...), is_substructure, is_equal, <, <= ---------- *)
@@ -491,6 +619,7 @@ Section Whole.
     compile_query q_atoms q_bonds = Ok (comps, clo) ->
     exists stream,
       mol_get_mapping amatch bmatch q_atoms q_bonds o_atoms o_bonds tcomps flt scope = Ok (auto_filter flt [] stream) /\
+      NoDup stream /\
       forall f, In f stream <-> membed comps scope f.
   Proof.
     intros comps clo flt scope Hc. pose proof (compile_query_spec _ _ _ _ wf_q _ _ Hc) as Hok.
@@ -498,12 +627,36 @@ Section Whole.
     destruct (Nat.eq_dec (length comps) 1) as [E1|E1].
     - destruct comps as [|c [|c2 r]]; try discriminate.
       rewrite (iso_stream_single QA A QB B amatch bmatch o_atoms o_bonds tcomps c clo scope). eexists. split; [reflexivity|].
-      intros f. pose proof Hok as (P & Hl & Hcl). destruct (Hl c (or_introl eq_refl)) as [Hne Hlin].
-      rewrite (proj2 (scope_exact QA A QB B amatch bmatch q_atoms q_bonds o_atoms o_bonds tcomps wf_q wf_o tc_ok c clo scope Hne Hlin) f).
-      apply (single_is_multi c clo scope f Hok).
+      pose proof Hok as (P & Hl & Hcl). destruct (Hl c (or_introl eq_refl)) as [Hne Hlin].
+      destruct (scope_exact QA A QB B amatch bmatch q_atoms q_bonds o_atoms o_bonds tcomps wf_q wf_o tc_ok c clo scope Hne Hlin) as [Hnd Hin].
+      split; [exact Hnd|]. intros f. rewrite (Hin f). apply (single_is_multi c clo scope f Hok).
     - rewrite (iso_stream_multi QA A QB B amatch bmatch q_atoms q_bonds o_atoms o_bonds tcomps comps clo Hok scope E1).
-      eexists. split; [reflexivity|]. intros f.
+      eexists. split; [reflexivity|].
+      split; [apply (multi_stream_NoDup QA A QB B amatch bmatch q_atoms q_bonds o_atoms o_bonds tcomps comps clo wf_q wf_o tc_ok Hok scope)|].
+      intros f.
       apply (multi_component_exact QA A QB B amatch bmatch q_atoms q_bonds o_atoms o_bonds tcomps comps clo wf_q wf_o tc_ok Hok scope).
+  Qed.
+
+  (* automorphism_filter=True: every result is an embedding, every embedding has a result with the same set of image atoms,
+     no two results have the same set of image atoms; automorphism_filter=False: exactly the embeddings, each once *)
+  Theorem get_mapping_filtered_exact : forall comps clo scope,
+    compile_query q_atoms q_bonds = Ok (comps, clo) ->
+    (exists res, mol_get_mapping amatch bmatch q_atoms q_bonds o_atoms o_bonds tcomps true scope = Ok res /\
+       (forall m, In m res -> membed comps scope m) /\
+       (forall f, membed comps scope f -> exists m, In m res /\ (forall y, In y (image f) <-> In y (image m))) /\
+       ForallOrdPairs (fun a b => ~ (forall y, In y (image a) <-> In y (image b))) res) /\
+    (exists res, mol_get_mapping amatch bmatch q_atoms q_bonds o_atoms o_bonds tcomps false scope = Ok res /\
+       NoDup res /\ forall f, In f res <-> membed comps scope f).
+  Proof.
+    intros comps clo scope Hc. split.
+    - destruct (get_mapping_exact comps clo true scope Hc) as (stream & E & _ & Hs).
+      destruct (automorphism_filter_exact stream) as (F1 & F2 & F3 & _).
+      exists (auto_filter true [] stream). split; [exact E|]. split; [|split; [|exact F3]].
+      + intros m Hm. apply Hs. apply F1. exact Hm.
+      + intros f Hf. apply Hs in Hf. apply F2. exact Hf.
+    - destruct (get_mapping_exact comps clo false scope Hc) as (stream & E & Hn & Hs).
+      assert (Ef : auto_filter false [] stream = stream) by apply automorphism_filter_exact. rewrite Ef in E.
+      exists stream. split; [exact E|]. split; assumption.
   Qed.
 
   (* the operators agree with the set of embeddings *)
@@ -512,7 +665,7 @@ Section Whole.
     exists b, is_substructure amatch bmatch q_atoms q_bonds o_atoms o_bonds tcomps = Ok b /\
               (b = true <-> exists f, membed comps None f).
   Proof.
-    intros comps clo Hc. destruct (get_mapping_exact comps clo false None Hc) as (stream & E & Hs).
+    intros comps clo Hc. destruct (get_mapping_exact comps clo false None Hc) as (stream & E & _ & Hs).
     unfold is_substructure. rewrite E.
     assert (Ef : auto_filter false [] stream = stream) by apply automorphism_filter_exact. rewrite Ef.
     destruct stream as [|f0 r].
@@ -683,7 +836,7 @@ Proof.
                = Ok [[(1, 2); (2, 4)]; [(1, 1); (2, 4)]]) by (vm_compute; reflexivity).
   split; [exact E1|]. split; [vm_compute; reflexivity|].
   destruct (get_mapping_exact Z Z Z Z Z.eqb Z.eqb ex_q_atoms ex_q_bonds ex_o_atoms ex_o_bonds ex_tcomps Wq Wo Tc _ _ false None Hc)
-    as (stream & E & Hs).
+    as (stream & E & _ & Hs).
   rewrite E1 in E. injection E as E. replace (auto_filter false [] stream) with stream in E by (symmetry; apply automorphism_filter_exact).
   apply Hs. rewrite <- E. left. reflexivity.
 Qed.
